@@ -16,19 +16,19 @@ FAMILIES = [
     (r'^(ScancodeSet for ScancodeSet2|ScancodeSet2::|Default for ScancodeSet2)', ['stream2']),
     (r'^trait ScancodeSet', ['stream2', 'stream1']),
     (r'^EventDecoder::process_keyevent/ensures#1', ['events_mods']),
-    (r'^EventDecoder::process_keyevent/ensures#3', ['events_decode']),
+    (r'^EventDecoder::process_keyevent/ensures#3', ['events_decode', 'events_values']),
     (r'^Keyboard::process_keyevent/ensures#2', ['events_mods']),
-    (r'^Keyboard::process_keyevent/ensures#4', ['events_decode']),
+    (r'^Keyboard::process_keyevent/ensures#4', ['events_decode', 'events_values']),
     (r'^(EventDecoder::|KeyEvent::)', ['events']),
     (r'^Keyboard::(process_keyevent|get_modifiers|set_ctrl_handling|get_ctrl_handling)', ['events', 'keyboard2']),
     (r'^Keyboard::', ['bits', 'keyboard2', 'keyboard1']),
     (r'^KeyboardLayout for ', ['layout_total']),
-    (r'^C05/', ['word', 'bits']), (r'^C06/', ['bits']), (r'^C04/', ['events_mods']), (r'^C14/', ['events_decode']),
+    (r'^C05/', ['word', 'bits']), (r'^C06/', ['bits']), (r'^C04/', ['events_mods']), (r'^C14/', ['events_decode', 'events_values']),
     (r'^C18/', ['keyboard2', 'keyboard1']), (r'^C07/.*set1', ['resync1']), (r'^C07/', ['resync2', 'resync1']),
     (r'^C01/', ['stream2']), (r'^C02/', ['stream1']), (r'^C19/.*set1', ['pairing1']), (r'^C19/', ['pairing2', 'pairing1']),
 ]
 KANI_FAST = ('word', 'bits', 'events', 'events_mods', 'events_decode')
-NARGS = {'word': 1, 'bits': 3, 'stream1': 5, 'stream2': 5, 'events': 8, 'events_mods': 8, 'events_decode': 8, 'resync1': 8, 'resync2': 8, 'pairing1': 3, 'pairing2': 3, 'injective1': 5, 'injective2': 5, 'keyboard1': 8, 'keyboard2': 8, 'layout_total': 5, 'switching': 10}
+NARGS = {'word': 1, 'bits': 3, 'stream1': 5, 'stream2': 5, 'events': 8, 'events_mods': 8, 'events_decode': 8, 'events_values': 8, 'events_values_all': 8, 'resync1': 8, 'resync2': 8, 'pairing1': 3, 'pairing2': 3, 'injective1': 5, 'injective2': 5, 'keyboard1': 8, 'keyboard2': 8, 'layout_total': 5, 'switching': 10}
 
 
 def scenarios_for(oid):
@@ -97,7 +97,7 @@ def find(prop, failure, R, info, binpath, timeout=600):
     from . import standin
     for sc in scs:
         args = {'word': ['words'], 'bits': ['bits'], 'stream1': ['stream', '1'], 'stream2': ['stream', '2'], 'events': ['events', '3'],
-                'events_mods': ['events', '1'], 'events_decode': ['events', '2'], 'resync1': ['resync', '1'], 'resync2': ['resync', '2'],
+                'events_mods': ['events', '1'], 'events_decode': ['events', '2'], 'events_values': ['events', '6'], 'events_values_all': ['events', '7'], 'resync1': ['resync', '1'], 'resync2': ['resync', '2'],
                 'pairing1': ['pairing', '1'], 'pairing2': ['pairing', '2'],
                 'keyboard1': ['keyboard', '1'], 'keyboard2': ['keyboard', '2'], 'layout_total': ['total']}[sc]
         line = standin.sweep(binpath, args)
